@@ -33,10 +33,21 @@ func (e *Exec) RunFunction(fn *ssa.Function) (err error) {
 	e.emit("(assert (< 0 %s))", a0.S)
 	st.heap["$alloc"] = a0
 	fr := &Frame{fn: fn, vals: map[ssa.Value]Value{}, locals: map[*ssa.Alloc]string{}}
+	if e.Opt.Setup != nil {
+		e.Opt.Setup(e)
+	}
+	for k, v := range e.InitHeap {
+		st.heap[k] = v
+	}
 	for _, p := range fn.Params {
 		v := e.havocValue(p.Type(), True, "p_"+p.Name())
 		fr.vals[p] = v
 		e.assumeParam(st, p.Type(), v)
+		if p.Name() == "args" {
+			if t, ok := v.(*Term); ok && t.Sort == SSl {
+				e.rootArgs = t
+			}
+		}
 	}
 	for _, fv := range fn.FreeVars {
 		// captured variable: pointer to a cell of unknown contents
@@ -322,7 +333,7 @@ func (e *Exec) loopHeader(fr *Frame, h *ssa.BasicBlock, st *State, fwd []edge, b
 	localsTouched := map[*ssa.Alloc]bool{}
 	for b := range body {
 		for _, in := range b.Instrs {
-			e.P.instrMods(in, ms)
+			e.P.InstrMods(in, ms)
 			switch x := in.(type) {
 			case *ssa.Store:
 				if a := allocRoot(x.Addr); a != nil {
@@ -517,6 +528,38 @@ func (e *Exec) loopInvariants(fr *Frame, h *ssa.BasicBlock, phis []*ssa.Phi, ini
 				})
 				add(nm+">="+render(other, 0), true, func(v map[*ssa.Phi]Value, st *State) *Term {
 					return Le(e.invTerm(fr, st, other2), Add(v[phi].(*Term), IntLit(off2)))
+				})
+			}
+		}
+	}
+	// ownership candidates (family M): a slice / list object carried around the
+	// loop is this activation's own allocation (or still its initial value)
+	if e.Opt.NoArgWrite {
+		for pi, phi := range phis {
+			phi := phi
+			init, ok := initVals[phi].(*Term)
+			if !ok {
+				continue
+			}
+			pname := phi.Comment
+			if pname == "" {
+				pname = fmt.Sprintf("phi%d", pi)
+			}
+			switch init.Sort {
+			case SSl:
+				add(pname+":own", true, func(v map[*ssa.Phi]Value, st *State) *Term {
+					t := v[phi].(*Term)
+					return Or(Eq(t, init), Le(e.heapRead(e.entry, "$alloc", SInt), App(SInt, "sl-id", t)), Eq(App(SInt, "sl-cap", t), IntLit(0)))
+				})
+			case SObj:
+				add(pname+":own", true, func(v map[*ssa.Phi]Value, st *State) *Term {
+					t := v[phi].(*Term)
+					sl := App(SSl, "o-sl", t)
+					lt := e.listTag()
+					if lt == nil {
+						return False
+					}
+					return Or(Eq(t, init), Implies(Eq(App(SInt, "o-tag", t), lt), Or(Le(e.heapRead(e.entry, "$alloc", SInt), App(SInt, "sl-id", sl)), Eq(App(SInt, "sl-len", sl), IntLit(0)))))
 				})
 			}
 		}
@@ -754,7 +797,7 @@ func (e *Exec) frameCandidates(fr *Frame, h *ssa.BasicBlock, phis []*ssa.Phi, in
 				}
 			case *ssa.Call:
 				m := &ModSet{Comps: map[string]bool{}}
-				e.P.instrMods(in, m)
+				e.P.InstrMods(in, m)
 				for c := range m.Comps {
 					if strings.HasPrefix(c, "A_") {
 						bad[c] = true
@@ -833,4 +876,16 @@ func (e *Exec) mergeExact(fr *Frame, phi *ssa.Phi, b *ssa.BasicBlock, ins []edge
 	if any && m != nil {
 		e.setExact(fr, phi, m)
 	}
+}
+
+func (e *Exec) listTag() *Term {
+	sp := e.P.SPkgs[ModPath]
+	if sp == nil {
+		return nil
+	}
+	lt := sp.Pkg.Scope().Lookup("List")
+	if lt == nil {
+		return nil
+	}
+	return IntLit(int64(e.tag(lt.Type())))
 }
